@@ -2,11 +2,16 @@
 
 Three things are compared for every generated arrangement (subsystem dims in {2,3}, names in any order, any grouping):
   impl   = quara.objects.operators.tensor_product on quara objects built from the generated factors,
-  model  = the extracted Coq model (Model/C07_Tensor.v, FAITHFUL mode 'Coded': head/tail sizes as the code computes them),
+  model  = the extracted Coq model (Model/C07_Tensor.v) in mode 'Fixed' = the code after the repairs
+           fixes/C07-left-permutation-matrix-size-product (head / tail sizes are products) and
+           fixes/C07-mprocess-tensor-outcome-layout (outcome pairs stored row-major w.r.t. the reported shape).  The mode
+           'Coded' (the code as it was before those repairs) is only used to CLASSIFY a failure: when the implementation
+           misbehaves exactly as the pre-repair model predicts, the violation carries the signature of that defect,
   pred   = the property predicate evaluated in plain numpy on the implementation's output: the operator(s) of the result
            are the Kronecker product of the factors' operators rearranged to ascending subsystem name, and the outcome
            multi-index is laid out as the reported shape says.
-impl vs model disagreements are reported as 'model-mismatch'; predicate failures under the site of the defect.
+impl vs model disagreements are reported as 'model-mismatch' (or under the signature of the returned defect, see above);
+predicate failures under the site of the defect.
 """
 import itertools, random
 from fractions import Fraction
@@ -23,6 +28,7 @@ SIG_MP = "outcome-layout-vs-shape"
 TOL = 1e-9
 KIND = {"state": 0, "povm": 1, "gate": 2}
 FUEL = 64
+MODE = 1          # the model the implementation is compared with: 1 = Fixed (repaired code), 0 = Coded (before the repairs)
 
 
 # ------------------------------------------------------------------ exact Gaussian-rational construction of factors
@@ -250,14 +256,16 @@ def is_left_chain(t):
     return True
 
 
-def impl_eval(t, leaves, use_varargs=True):
+def impl_eval(t, leaves, use_varargs=True, aslist=False):
     from quara.objects.operators import tensor_product
     if isinstance(t, int):
         return leaves[t]["obj"]
     if use_varargs and is_left_chain(t) and len(tree_leaves(t)) >= 3:
-        # tensor_product(a, b, c, ...) is the left fold
-        return tensor_product(*[leaves[i]["obj"] for i in tree_leaves(t)])
-    return tensor_product(impl_eval(t[0], leaves, use_varargs), impl_eval(t[1], leaves, use_varargs))
+        # tensor_product(a, b, c, ...) is the left fold; list arguments are flattened one level (_to_list)
+        objs = [leaves[i]["obj"] for i in tree_leaves(t)]
+        return tensor_product(objs[:2], *objs[2:]) if aslist else tensor_product(*objs)
+    a, b = impl_eval(t[0], leaves, use_varargs, aslist), impl_eval(t[1], leaves, use_varargs, aslist)
+    return tensor_product([a, b]) if aslist else tensor_product(a, b)
 
 
 def enc_tree(t, leaves, zs, qs):
@@ -326,41 +334,51 @@ def chk_perm(ctx, case):
     names, sizes = case["names"], case["sizes"]
     n = len(names); N = int(np.prod(sizes))
     impl = run_impl(lambda: mu.calc_permutation_matrix(list(names), list(sizes)))
-    st, val = m.try_call("c07.perm_map", [0, FUEL, n] + names + sizes)
+    st, val = m.try_call("c07.perm_map", [MODE, FUEL, n] + names + sizes)
     inv = sum(1 for i in range(n) for j in range(i + 1, n) if names[i] > names[j])
     lab = "n%d-inv%d-%s" % (n, min(inv, 3), "ok" if impl[0] == "ok" else "raise")
     ctx.count("perm", key=(tuple(names), tuple(sizes)), nontrivial=inv > 0, label=lab)
-    if st == "err":
-        if impl[0] != "err" or impl[1] != "ValueError":
-            ctx.violation("perm", "matrix_util.calc_permutation_matrix", "model-mismatch", "model (faithful) says dimension mismatch, implementation %s" % (impl[:2],), case)
-    elif impl[0] == "err":
-        ctx.violation("perm", "matrix_util.calc_permutation_matrix", "model-mismatch", "implementation raised %s, faithful model returns a matrix" % (impl[1:],), case)
-    else:
-        P = impl[1]
-        s = [int(x) for x in val]
-        Pm = np.zeros((N, N)); Pm[np.arange(N), s] = 1
-        if P.shape != (N, N) or not np.array_equal(P, Pm):
-            ctx.violation("perm", "matrix_util.calc_permutation_matrix", "model-mismatch", "permutation matrix differs from the faithful model for names %s sizes %s" % (names, sizes), case)
+    if st != "ok":
+        # C07_perm_terminates: with corrected sizes and fuel >= #inversions the model returns a matrix
+        ctx.violation("perm", "model", "model-error", "repaired model returns error %s on %s %s" % (val, names, sizes), case)
+        return
+    s = [int(x) for x in val]
+    Pm = np.zeros((N, N)); Pm[np.arange(N), s] = 1
     # matrix-level model (mmul of kron(kron(I,K),I)) for tiny instances: same answer as the index-map model
-    if N <= 40 and inv <= 3:
-        st2, val2 = m.try_call("c07.perm_matrix", [0, FUEL, n] + names + sizes)
-        if st2 != st or (st == "ok" and [int(x) for x in val2] != [1 if s[i] == j else 0 for i in range(N) for j in range(N)]):
+    # (function matrices re-evaluate: one entry of a product of k left-permutation matrices costs N^k)
+    if N <= 64 and N ** (inv + 2) <= 400000:
+        st2, val2 = m.try_call("c07.perm_matrix", [MODE, FUEL, n] + names + sizes)
+        if st2 != st or [int(x) for x in val2] != [1 if s[i] == j else 0 for i in range(N) for j in range(N)]:
             ctx.violation("perm", "model", "spec-vs-fast-model", "matrix-level and index-map models differ on %s %s" % (names, sizes), case)
+    # the pre-repair model, only to name the defect when it is back
+    stc, valc = m.try_call("c07.perm_map", [0, FUEL, n] + names + sizes)
     # property: the matrix sends the Kronecker product of the factors in the given order to the product in ascending name order
     rng = random.Random(case.get("seed", 1))
     xs = [np.array([float(rng.randint(-5, 5) + (k + 1) * 0.5) for _ in range(sz)]) for k, sz in enumerate(sizes)]
     order = sorted(range(n), key=lambda k: names[k])
     want = kron_all([x.reshape(-1, 1) for x in [xs[k] for k in order]]).ravel().real
     have_in = kron_all([x.reshape(-1, 1) for x in xs]).ravel().real
+    if maxabs(Pm @ have_in, want) > TOL * (1 + np.abs(want).max()):
+        ctx.violation("perm", "model", "model-not-sorting", "the repaired model's matrix does not reorder the factors (contradicts C07_perm_sorts_vec) on %s %s" % (names, sizes), case)
+        return
     if impl[0] == "err":
-        ctx.violation("perm", SITE_PERM, SIG_PERM_CRASH, "calc_permutation_matrix(%s, %s) raises %s: %s" % (names, sizes, impl[1], impl[2][:120]), case)
-    elif maxabs(impl[1] @ have_in, want) > TOL * (1 + np.abs(want).max()):
-        ctx.violation("perm", SITE_PERM, SIG_PERM_WRONG, "calc_permutation_matrix(%s, %s) does not reorder the factors to ascending name (max dev %.3g)" % (names, sizes, maxabs(impl[1] @ have_in, want)), case)
+        as_before = stc == "err" and int(valc) == 1 and impl[1] == "ValueError"
+        site, sig = (SITE_PERM, SIG_PERM_CRASH) if as_before else ("matrix_util.calc_permutation_matrix", "raises")
+        ctx.violation("perm", site, sig, "calc_permutation_matrix(%s, %s) raises %s: %s" % (names, sizes, impl[1], impl[2][:120]), case)
+        return
+    P = np.asarray(impl[1])
+    if P.shape == (N, N) and np.array_equal(P, Pm):
+        return
+    dev = maxabs(P @ have_in, want) if P.shape == (N, N) else float("inf")
+    if dev > TOL * (1 + np.abs(want).max()):
+        as_before = False
+        if stc == "ok" and P.shape == (N, N):
+            Pc = np.zeros((N, N)); Pc[np.arange(N), [int(x) for x in valc]] = 1
+            as_before = np.array_equal(P, Pc)
+        site, sig = (SITE_PERM, SIG_PERM_WRONG) if as_before else ("matrix_util.calc_permutation_matrix", "wrong-permutation")
+        ctx.violation("perm", site, sig, "calc_permutation_matrix(%s, %s) does not reorder the factors to ascending name (max dev %.3g)" % (names, sizes, dev), case)
     else:
-        # with the corrected sizes the model agrees with the implementation whenever the implementation is right
-        st3, val3 = m.try_call("c07.perm_map", [1, FUEL, n] + names + sizes)
-        if st3 != "ok" or not np.array_equal(impl[1], np.eye(N)[[int(x) for x in val3]]):
-            ctx.violation("perm", "matrix_util.calc_permutation_matrix", "model-mismatch", "corrected model differs from a correct implementation result on %s %s" % (names, sizes), case)
+        ctx.violation("perm", "matrix_util.calc_permutation_matrix", "model-mismatch", "matrix differs from the model's although it reorders the probe product, names %s sizes %s" % (names, sizes), case)
 
 
 def chk_kmat(ctx, case):
@@ -393,10 +411,15 @@ def sub_perm(ctx):
             pools = [[4, 9, 4, 9], [2, 3, 4, 5], [3, 2, 2, 4], [2, 2, 2, 2]] if n < 4 else [[4, 4, 4, 9], [2, 3, 4, 5], [2, 2, 2, 2], [2, 2, 3, 2]]
             for pool in (pools if not ctx.quick or n < 4 else pools[:3]):
                 cases.append({"names": [int(p) * 3 + 1 for p in perm], "sizes": pool[:n], "seed": rng.randrange(10 ** 6)})
+    # seeded sample, 3-6 subsystems; the dense N x N matmuls of the implementation bound N (one swap costs N^3)
+    cap = ctx.n(300, 1000)
     for _ in range(ctx.n(20, 200)):
         n = rng.choice([3, 4, 4, 5, 5, 6])
         names = rng.sample(range(0, 40), n)
         sizes = [rng.choice([1, 2, 2, 3, 3, 4]) for _ in range(n)]
+        while int(np.prod(sizes)) > cap:
+            k = max(range(n), key=lambda q: sizes[q])
+            sizes[k] -= 1
         cases.append({"names": names, "sizes": sizes, "seed": rng.randrange(10 ** 6)})
     # the arrangement on which the coded sizes give a square matrix of the right size that is the wrong permutation
     cases.append({"names": [0, 1, 3, 2, 4, 5], "sizes": [1, 2, 2, 2, 3, 3], "seed": 7})
@@ -416,39 +439,39 @@ def chk_tree(ctx, case):
     nsys = len(names)
     sorted_names = sorted(names)
     sdims = [d for _, d in sorted(zip(names, dims))]
-    impl = run_impl(lambda: impl_eval(t, leaves, case.get("varargs", True)))
-    mod = model_eval(ctx, KIND[typ], 0, t, leaves)
+    impl = run_impl(lambda: impl_eval(t, leaves, case.get("varargs", True), case.get("aslist", False)))
+    mod = model_eval(ctx, KIND[typ], MODE, t, leaves)
     ctx.count(sub, key=repr(case), nontrivial=names != sorted_names,
               label="%s-n%d-%s%s" % (typ, nsys, "ok" if impl[0] == "ok" else "raise", "-sorted" if names == sorted_names else ""))
-    # ---- correspondence with the faithful model
     if mod[0] == "err":
-        if impl[0] != "err" or impl[1] != "ValueError":
-            ctx.violation(sub, "operators.tensor_product:" + typ, "model-mismatch", "faithful model raises (code %s), implementation %s" % (mod[1], impl[:2]), case)
-    elif impl[0] == "err":
-        ctx.violation(sub, "operators.tensor_product:" + typ, "model-mismatch", "implementation raised %s, faithful model returns a value" % (impl[1:],), case)
-    else:
-        r = impl[1]
-        _, mnames, mrs, mcs, mdata = mod
-        inames = [e.name for e in r.composite_system.elemental_systems]
-        idims = [e.dim for e in r.composite_system.elemental_systems]
-        if typ == "state":
-            idata = np.asarray(r.vec).reshape(-1, 1); msizes = mrs; ishape_ok = True
-        elif typ == "povm":
-            idata = np.array(r.vecs); msizes = mcs
-            ishape_ok = list(r.nums_local_outcomes) == mrs
-        else:
-            idata = np.asarray(r.hs); msizes = mcs; ishape_ok = True
-        if inames != mnames or [d * d for d in idims] != msizes or not ishape_ok:
-            ctx.violation(sub, "operators.tensor_product:" + typ, "model-mismatch", "composite system / shape differs: impl %s %s model %s %s %s" % (inames, idims, mnames, mrs, mcs), case)
-        elif maxabs(idata, mdata) > TOL * (1 + np.abs(mdata).max()):
-            ctx.violation(sub, "operators.tensor_product:" + typ, "model-mismatch", "values differ from the faithful model, max dev %.3g" % maxabs(idata, mdata), case)
-    # ---- property predicate on the implementation's output
+        # C07_eval_total: distinct names, corrected sizes, fuel >= n^2  ->  the model returns a value
+        ctx.violation(sub, "model", "model-error", "repaired model returns error %s for distinct names %s" % (mod[1], names), case)
+        return
     if impl[0] == "err":
-        if impl[1] == "ValueError" and "matmul" in impl[2]:
+        # the repaired code returns a value here; name the defect when the pre-repair model predicts exactly this failure
+        coded = model_eval(ctx, KIND[typ], 0, t, leaves)
+        if impl[1] == "ValueError" and "matmul" in impl[2] and crash_expected_by_model(coded):
             ctx.violation(sub, SITE_PERM, SIG_PERM_CRASH, "tensor_product of %d %ss, names in argument order %s, grouping %s raises ValueError (%s)" % (len(leaves), typ, names, t, impl[2][:80]), case)
         else:
             ctx.violation(sub, "operators.tensor_product:" + typ, "unexpected-raise", "%s: %s" % (impl[1], impl[2]), case)
         return
+    # ---- correspondence with the model of the repaired code
+    r = impl[1]
+    _, mnames, mrs, mcs, mdata = mod
+    inames = [e.name for e in r.composite_system.elemental_systems]
+    idims = [e.dim for e in r.composite_system.elemental_systems]
+    if typ == "state":
+        idata = np.asarray(r.vec).reshape(-1, 1); msizes = mrs; ishape_ok = True
+    elif typ == "povm":
+        idata = np.array(r.vecs); msizes = mcs
+        ishape_ok = list(r.nums_local_outcomes) == mrs
+    else:
+        idata = np.asarray(r.hs); msizes = mcs; ishape_ok = True
+    if inames != mnames or [d * d for d in idims] != msizes or not ishape_ok:
+        ctx.violation(sub, "operators.tensor_product:" + typ, "model-mismatch", "composite system / shape differs: impl %s %s model %s %s %s" % (inames, idims, mnames, mrs, mcs), case)
+    elif maxabs(idata, mdata) > TOL * (1 + np.abs(mdata).max()):
+        ctx.violation(sub, "operators.tensor_product:" + typ, "model-mismatch", "values differ from the model, max dev %.3g" % maxabs(idata, mdata), case)
+    # ---- property predicate on the implementation's output
     r = impl[1]
     inames = [e.name for e in r.composite_system.elemental_systems]
     if inames != sorted_names or [e.dim for e in r.composite_system.elemental_systems] != sdims:
@@ -532,6 +555,9 @@ def gen_tree_cases(ctx, typ, nsys_list, count, sub=None, composite_leaf_prob=0.0
             dims = [rng.choice([2, 2, 3]) for _ in range(n)]
             if n == 4 and ctx.quick:
                 dims = [2, 2, 2, rng.choice([2, 3])]; rng.shuffle(dims)
+        # quara multiplies dense (prod d^2) x (prod d^2) permutation matrices once per swap: total dimension <= 27
+        while int(np.prod(dims)) > 27:
+            dims[dims.index(3)] = 2
         names = rng.sample(range(0, 12), n)
         nouts = rng.sample([2, 3, 4, 5] if n <= 3 else [1, 2, 3, 4], n)
         if typ == "povm" and n == 4 and 3 in dims:
@@ -550,7 +576,7 @@ def gen_tree_cases(ctx, typ, nsys_list, count, sub=None, composite_leaf_prob=0.0
             continue
         trees = list(all_trees(list(range(len(leaves)))))
         t = rng.choice(trees)
-        cases.append({"typ": typ, "sub": sub or typ, "leaves": leaves, "tree": t, "varargs": rng.random() < 0.8})
+        cases.append({"typ": typ, "sub": sub or typ, "leaves": leaves, "tree": t, "varargs": rng.random() < 0.8, "aslist": rng.random() < 0.3})
     return cases
 
 
@@ -568,11 +594,11 @@ def exhaustive_tree_cases(ctx, typ, dims, names_sorted, nouts, sub=None):
 
 def sub_state(ctx):
     cases = exhaustive_tree_cases(ctx, "state", [2, 3, 2], [1, 4, 6], [0, 0, 0])
-    cases += exhaustive_tree_cases(ctx, "state", [2, 2, 2, 2], [0, 2, 3, 7], [0] * 4)[:: (5 if ctx.quick else 1)]
+    cases += exhaustive_tree_cases(ctx, "state", [2, 2, 2, 2], [0, 2, 3, 7], [0] * 4)[:: (7 if ctx.quick else 1)]
     if not ctx.quick:
         cases += exhaustive_tree_cases(ctx, "state", [2, 3, 2, 2], [0, 2, 3, 7], [0] * 4)
         cases += exhaustive_tree_cases(ctx, "state", [3, 2, 3], [1, 4, 6], [0, 0, 0])
-    cases += gen_tree_cases(ctx, "state", [2, 3, 3, 4], ctx.n(25, 300), composite_leaf_prob=0.25)
+    cases += gen_tree_cases(ctx, "state", [2, 3, 3, 4], ctx.n(20, 300), composite_leaf_prob=0.25)
     ctx.sample("state", cases[7])
     ctx.run_cases("state", chk_tree, cases)
 
@@ -596,16 +622,16 @@ def sub_gate(ctx):
     for k, c in enumerate(c3):
         if ctx.quick or k % 4:
             c["leaves"] = [dict(sp, phys=False) for sp in c["leaves"]]
-    cases = c3[:: (3 if ctx.quick else 1)]
+    cases = c3[:: (4 if ctx.quick else 1)]
     cases += exhaustive_tree_cases(ctx, "gate", [2, 3], [5, 2], [0, 0])
-    cases += gen_tree_cases(ctx, "gate", [2, 2, 3] if not ctx.quick else [2], ctx.n(8, 60))
+    cases += gen_tree_cases(ctx, "gate", [2, 2, 3] if not ctx.quick else [2], ctx.n(6, 60))
     ctx.sample("gate", cases[3])
     ctx.run_cases("gate", chk_tree, cases)
 
 
 # ------------------------------------------------------------------ sub-check: MProcess products (layout vs shape)
 def model_hs_product(ctx, a, b, mode=0):
-    """a, b: dicts names/rs/cs/data (HS matrices) -> ('ok', names, rs, cs, M) by the faithful model"""
+    """a, b: dicts names/rs/cs/data (HS matrices) -> ('ok', names, rs, cs, M) by the model"""
     zs = [2, mode, FUEL, 1, 0, len(a["names"])] + a["names"] + a["rs"] + a["cs"] + [0, len(b["names"])] + b["names"] + b["rs"] + b["cs"]
     st, val = ctx.get_model().try_call("c07.eval", zs, list(a["data"]) + list(b["data"]))
     if st == "err":
@@ -634,24 +660,29 @@ def chk_mprocess(ctx, case):
     hss2 = b["hss"] if kinds[1] == "m" else [b["hs"]]
     ops1 = a["ops"] if kinds[0] == "m" else [a["ops"]]
     ops2 = b["ops"] if kinds[1] == "m" else [b["ops"]]
-    # ---- faithful model: slots as coded, each slot the HS product
-    slots = [int(x) for x in ctx.get_model().call("c07.mp_slots", [0, n1, n2])]
-    slots = [(slots[2 * s], slots[2 * s + 1]) for s in range(n1 * n2)]
+    # ---- model of the repaired code: pair of outcomes stored at each serial position, each slot the HS product
+    def slots_of(mode):
+        v = [int(x) for x in ctx.get_model().call("c07.mp_slots", [mode, n1, n2])]
+        return [(v[2 * s], v[2 * s + 1]) for s in range(n1 * n2)]
+    slots = slots_of(MODE)
     want_shape = ((n1,) if kinds[0] == "m" else ()) + ((n2,) if kinds[1] == "m" else ())
     if tuple(r.shape) != want_shape or len(r.hss) != n1 * n2:
         ctx.violation("mprocess", "operators.tensor_product:mprocess", "model-mismatch", "shape %s / %d matrices, model %s / %d" % (r.shape, len(r.hss), want_shape, n1 * n2), case)
         return
-    for s, (i1, i2) in enumerate(slots):
-        ma = {"names": a["names"], "rs": a["rs"], "cs": a["cs"], "data": [float(x) for x in hss1[i1].ravel()]}
-        mb_ = {"names": b["names"], "rs": b["rs"], "cs": b["cs"], "data": [float(x) for x in hss2[i2].ravel()]}
-        mod = model_hs_product(ctx, ma, mb_)
-        if mod[0] != "ok":
-            ctx.violation("mprocess", "operators.tensor_product:mprocess", "model-mismatch", "model error %s" % (mod[1],), case)
-            return
-        M = np.array([float(x) for x in mod[4]]).reshape(r.hss[s].shape)
-        if maxabs(r.hss[s], M) > TOL * (1 + np.abs(M).max()):
-            ctx.violation("mprocess", "operators.tensor_product:mprocess", "model-mismatch", "hss[%d] differs from the faithful model's product of outcomes (%d,%d): %.3g" % (s, i1, i2, maxabs(r.hss[s], M)), case)
-            return
+    prods = {}
+    for i1 in range(n1):
+        for i2 in range(n2):
+            ma = {"names": a["names"], "rs": a["rs"], "cs": a["cs"], "data": [float(x) for x in hss1[i1].ravel()]}
+            mb_ = {"names": b["names"], "rs": b["rs"], "cs": b["cs"], "data": [float(x) for x in hss2[i2].ravel()]}
+            mod = model_hs_product(ctx, ma, mb_, MODE)
+            if mod[0] != "ok":
+                ctx.violation("mprocess", "model", "model-error", "repaired model returns error %s" % (mod[1],), case)
+                return
+            prods[(i1, i2)] = np.array([float(x) for x in mod[4]]).reshape(r.hss[0].shape)
+
+    def layout_is(sl):
+        return all(maxabs(r.hss[s], prods[sl[s]]) <= TOL * (1 + np.abs(prods[sl[s]]).max()) for s in range(n1 * n2))
+    corr_ok = layout_is(slots)
     # ---- property: hs(multi-index) per the reported shape is the product of the operands' outcomes, factor-wise action
     Bc = [dense(x) for x in r.composite_system.basis()]
     inames = [e.name for e in r.composite_system.elemental_systems]
@@ -666,8 +697,14 @@ def chk_mprocess(ctx, case):
             if bad is not None and worst is None:
                 worst = (idx, bad)
     if worst is not None:
-        site, sig = (SITE_MP, SIG_MP) if kinds == ["m", "m"] else ("operators.tensor_product:gate-mprocess", "not-factorwise-action")
+        # the defect repaired by fixes/C07-mprocess-tensor-outcome-layout: every matrix is the right product, stored column-major
+        if kinds == ["m", "m"] and layout_is(slots_of(0)):
+            site, sig = SITE_MP, SIG_MP
+        else:
+            site, sig = "operators.tensor_product:" + "".join(kinds), "not-factorwise-action"
         ctx.violation("mprocess", site, sig, "hs(%s) of the product (reported shape %s) is not the product of the operands' outcomes %s (max dev %.3g)" % (worst[0], tuple(r.shape), worst[0], worst[1]), case)
+    elif not corr_ok:
+        ctx.violation("mprocess", "operators.tensor_product:mprocess", "model-mismatch", "HS matrices differ from the model's although the factor-wise probe passes", case)
     if all(sp.get("phys", True) for sp in case["leaves"]) and not r.is_physical():
         ctx.violation("mprocess", "operators.tensor_product:mprocess", "unphysical-product", "product of physical instruments is not physical", case)
 
@@ -757,12 +794,19 @@ def chk_misc(ctx, case):
         ctx.count("misc", key=repr(case), nontrivial=False, label="rejected-pair")
         if impl[0] != "err" or impl[1] != "TypeError":
             ctx.violation("misc", "operators._tensor_product", "error-kind", "unsupported pair (%s, %s) must raise TypeError, got %s" % (ta, tb, impl[:2]), case)
+    elif kind == "arity":
+        la = make_leaf("state", {"names": [0], "dims": [2], "nout": 2, "seed": 1})
+        ctx.count("misc", key=repr(case), nontrivial=False, label="arity")
+        for args in ([la["obj"]], [[la["obj"]]], []):
+            impl = run_impl(lambda: tensor_product(*args))
+            if impl[0] != "err" or impl[1] != "ValueError":
+                ctx.violation("misc", "operators._to_list", "error-kind", "fewer than two operands must raise ValueError, got %s" % (impl[:2],), case)
     elif kind == "dupname":
         typ = case["typ"]
         la = make_leaf(typ, {"names": [3], "dims": [2], "nout": 2, "seed": 1})
         lb = make_leaf(typ, {"names": [3], "dims": [2], "nout": 3, "seed": 2})
         impl = run_impl(lambda: tensor_product(la["obj"], lb["obj"]))
-        mod = model_eval(ctx, KIND[typ], 0, [0, 1], [la, lb])
+        mod = model_eval(ctx, KIND[typ], MODE, [0, 1], [la, lb])
         ctx.count("misc", key=repr(case), nontrivial=False, label="duplicate-name")
         if not (impl[0] == "err" and impl[1] == "ValueError" and mod == ("err", 3)):
             ctx.violation("misc", "composite_system.CompositeSystem", "error-kind", "duplicate subsystem name must raise ValueError (model code 3): impl %s model %s" % (impl[:2], mod[:2]), case)
@@ -781,6 +825,7 @@ def sub_misc(ctx):
         cases.append({"kind": "types", "pair": list(pair), "seed": 0})
     for typ in ("state", "povm", "gate"):
         cases.append({"kind": "dupname", "typ": typ, "seed": 0})
+    cases.append({"kind": "arity", "seed": 0})
     ctx.sample("misc", cases[0])
     ctx.run_cases("misc", chk_misc, cases)
 
@@ -943,7 +988,17 @@ def run(ctx):
                 "2-4 subsystems of dims {2,3}, every permutation of names x every grouping for fixed dimension patterns plus a seeded sample, "
                 "pairwise different outcome counts; non-trivial = names NOT already ascending in argument order (a permutation is really applied) "
                 "or unequal outcome counts; distinct = distinct (factors, names, grouping)")
-    flow.standard_run(ctx, SUBS)
+    # matrix_util._check_cross_system_position (the control of the bubble loop) is REGENERATED from the current source by
+    # gen/py2coq.py and re-proved equal to the model's [check_cross] (coq/gen/C07_Equiv.v) on every run
+    import time
+
+    def timed(name, fn):
+        def go(c):
+            t0 = time.time()
+            fn(c)
+            c.note("sub-check %s: %.1f s" % (name, time.time() - t0))
+        return go
+    flow.standard_run(ctx, [(nm, timed(nm, fn)) for nm, fn in SUBS], regens=[("cross_position", "C07_Equiv")])
 
 
 def replay(ctx, doc):
